@@ -327,14 +327,31 @@ def derivePublic (P : G) (a : F) : G := O.gadd P (actBase O a)
 def deriveSharePath (s : F) (path : List F) : F := path.foldl (deriveShare O) s
 def derivePublicPath (P : G) (path : List F) : G := path.foldl (derivePublic O) P
 
-/-- what doerner `ConfigReceiver.Derive` AND `ConfigSender.Derive` both do:
-    `SecretShare.Add(adjust)`, `Public.Add(adjust·G)`; the chain key is not copied (result: `none`). -/
+/-- the state of one side of a doerner key: additive share, public key, chain key (`none` = absent) -/
 structure DoernerCfg (F G : Type) where
   secretShare : F
   pub : G
   chainKey : Option (List UInt8)
 
-def doernerDerive (c : DoernerCfg F G) (a : F) (_newChainKey : List UInt8) : DoernerCfg F G :=
+/-- doerner `ConfigReceiver.Derive` (as of commit 4df2a70): the RECEIVER adds the tweak,
+    `SecretShare.Add(adjust)`, `Public.Add(adjust·G)`, `ChainKey: newChainKey`.
+    (`newChainKey` is the value after the preamble `deriveChainRule`.) -/
+def doernerDeriveReceiver (c : DoernerCfg F G) (a : F) (newChainKey : List UInt8) : DoernerCfg F G :=
+  { secretShare := O.add c.secretShare a, pub := O.gadd c.pub (actBase O a), chainKey := some newChainKey }
+
+/-- doerner `ConfigSender.Derive` (as of commit 4df2a70): the SENDER keeps its share
+    (`NewScalar().Set(c.SecretShare)`), `Public.Add(adjust·G)`, `ChainKey: newChainKey`. -/
+def doernerDeriveSender (c : DoernerCfg F G) (a : F) (newChainKey : List UInt8) : DoernerCfg F G :=
+  { secretShare := c.secretShare, pub := O.gadd c.pub (actBase O a), chainKey := some newChainKey }
+
+/-- a derivation path applied to both halves of one key: each step is (tweak, chain key of the step) -/
+def doernerDerivePath (cR cS : DoernerCfg F G) (path : List (F × List UInt8)) : DoernerCfg F G × DoernerCfg F G :=
+  path.foldl (fun st step => (doernerDeriveReceiver O st.1 step.1 step.2, doernerDeriveSender O st.2 step.1 step.2)) (cR, cS)
+
+/-- OLD behaviour (before 4df2a70), kept for the witness lemmas: what `ConfigReceiver.Derive` AND
+    `ConfigSender.Derive` BOTH did: `SecretShare.Add(adjust)`, `Public.Add(adjust·G)`; the chain key was
+    not copied into the result (`none`). -/
+def doernerDeriveOld (c : DoernerCfg F G) (a : F) (_newChainKey : List UInt8) : DoernerCfg F G :=
   { secretShare := O.add c.secretShare a, pub := O.gadd c.pub (actBase O a), chainKey := none }
 
 end generic
@@ -368,6 +385,28 @@ def fromHash (h : Bytes) : Nat := unbe (h.take 32) % Secp.n
 def xScalar : Secp.Pt → Nat
   | .inf => 0
   | .aff x _ => x % Secp.n
+
+/-! ## chain keys -/
+
+/-- `RID.XOR`: `for b < 32 { rid[b] ^= other[b] }` (both validated to be 32 bytes long) -/
+def ridXor (a b : Bytes) : Bytes := List.zipWith (fun x y => x ^^^ y) a b
+
+/-- keygen (cmp round3 / frost round3 `Finalize`): `ChainKey := EmptyRID(); for j in PartyIDs { ChainKey.XOR(ChainKeys[j]) }` -/
+def chainKeyOf (contribs : List Bytes) : Bytes := contribs.foldl ridXor (List.replicate 32 0)
+
+/-- the chain key a FROST keygen result carries: since commit eba3819 the XOR of the contributions … -/
+def frostResultChainKey (contribs : List Bytes) : Option Bytes := some (chainKeyOf contribs)
+/-- … OLD behaviour (before eba3819): computed into a local variable and left out of the Config literal -/
+def frostResultChainKeyOld (_contribs : List Bytes) : Option Bytes := none
+
+/-- preamble of every `Derive(adjust, newChainKey)` (cmp, frost, doerner):
+    `if len(newChainKey) <= 0 { newChainKey = c.ChainKey }; if len(newChainKey) != 32 { error }`
+    (`none` arguments are nil slices; result `none` = the error) -/
+def deriveChainRule (old new : Option Bytes) : Option Bytes :=
+  let nc := match new with
+    | some b => if b.length = 0 then old.getD [] else b
+    | none => old.getD []
+  if nc.length ≠ 32 then none else some nc
 
 /-- `Secp256k1Point.MarshalBinary`: `out[0] = Y.IsOddBit() + 2; out[1:] = X` after `ToAffine` — the
     identity comes out as 02‖0³² (there is no error path) -/
